@@ -159,16 +159,13 @@ class Curve(CellObject):
         else:
             indices = indices.astype("int32")
 
-        if self.vertices is None:
-            # Labels given before the vertices (e.g. keyword order on creation):
-            # kept, the segments are derived once the vertices are known.
-            self._parts = indices
-            self._cells = None
-            return
+        # Labels given before the vertices (e.g. keyword order on creation) are
+        # kept: the segments are derived once the vertices are known.
+        if self.vertices is not None:
+            assert indices.shape == (
+                self.vertices.shape[0],
+            ), f"Provided parts must be of shape {self.vertices.shape[0]}"
 
-        assert indices.shape == (
-            self.vertices.shape[0],
-        ), f"Provided parts must be of shape {self.vertices.shape[0]}"
         self._parts = indices
         self._cells = None
         self.workspace.update_attribute(self, "cells")
